@@ -555,6 +555,9 @@ pub struct Explorer<'a> {
     pub leaf_bins: Vec<u32>,
     /// witnesses of the most recently explored `More` node: (signature, prefix length, witnesses)
     last_wit: Option<(u64, usize, Vec<(Vec<u64>, [Probe; 2])>, Vec<(Vec<u64>, Probe)>)>,
+    /// the deadline passed while executions were still being made (a single slow call can hide it from the
+    /// per-node check): every later classification returns `Cut`
+    hard_stop: bool,
     /// probability mass of the path from the root to the node being expanded
     cur_mass: f64,
     /// reach[d]: mass of the paths on which a value-producing expansion with d value levels above it takes place
@@ -567,6 +570,8 @@ enum Class {
     Bad { req: u32 },
     Restart { anc_len: u32, shift: i32, req: u32 },
     More { sig: u64, tag: u8, mid: bool, probes: Vec<Probe> },
+    /// the exploration's deadline passed: nothing below is executed any more, the mass becomes residual
+    Cut,
 }
 
 impl Class {
@@ -576,6 +581,7 @@ impl Class {
             Class::Bad { .. } => mixh(2, 0),
             Class::Restart { anc_len, shift, .. } => mixh(3, (*anc_len as u64) << 32 | (*shift as u32 as u64)),
             Class::More { sig, .. } => mixh(4, *sig),
+            Class::Cut => mixh(5, 0),
         }
     }
     fn is_more(&self) -> bool {
@@ -594,12 +600,21 @@ const FILL: u64 = 0x400; // low 11 bits used when they are irrelevant
 
 impl<'a> Explorer<'a> {
     pub fn new(s: &'a dyn Sampler, grid: &'a Grid, cfg: TreeCfg, macros: Option<&'a std::sync::Mutex<MacroAlphabets>>) -> Self {
-        Explorer { s, grid, cfg, macros, cnt: Counters::default(), memo: HashMap::new(), collectors: vec![], bad_leaves: vec![], boundary_scripts: vec![], sample_scripts: vec![], alpha_cache: HashMap::new(), memo_entries: 0, restart_cache: HashMap::new(), leaf_bins: vec![0; grid.k() + 1], last_wit: None, cur_mass: 1.0, reach: vec![0.0; 12] }
+        Explorer { s, grid, cfg, macros, cnt: Counters::default(), memo: HashMap::new(), collectors: vec![], bad_leaves: vec![], boundary_scripts: vec![], sample_scripts: vec![], alpha_cache: HashMap::new(), memo_entries: 0, restart_cache: HashMap::new(), leaf_bins: vec![0; grid.k() + 1], last_wit: None, hard_stop: false, cur_mass: 1.0, reach: vec![0.0; 12] }
     }
 
     #[inline]
     fn exec(&mut self, script: &[u64], seed: u64, tags: bool) -> Exec {
         self.cnt.execs += 1;
+        if (self.cnt.execs & 0x3F) == 0 && !self.hard_stop {
+            if let Some(d) = self.cfg.deadline {
+                if std::time::Instant::now() > d {
+                    self.hard_stop = true;
+                    self.cfg.exec_budget = 0;
+                    self.cnt.budget_hit = true;
+                }
+            }
+        }
         let mut rng = ScriptRng::new(script, seed);
         rng.tags = tags;
         rng.cap = 20_000;
@@ -618,6 +633,9 @@ impl<'a> Explorer<'a> {
 
     /// classify prefix `p` in the context of `path`
     fn classify(&mut self, p: &[u64], path: &mut [PathNode]) -> Class {
+        if self.hard_stop {
+            return Class::Cut;
+        }
         let e0 = self.exec(p, 1, true);
         if !e0.overrun {
             let c = match &e0.out {
@@ -774,6 +792,9 @@ impl<'a> Explorer<'a> {
 
     /// record a direct child of the node currently being expanded (complete list, used to confirm memo merges)
     fn note_child(&mut self, p: &[u64], node_len: usize) {
+        if self.hard_stop {
+            return;
+        }
         if let Some(c) = self.collectors.last_mut() {
             if c.base == node_len && !c.level1_overflow {
                 if c.level1.len() >= 40_000 {
@@ -962,6 +983,7 @@ impl<'a> Explorer<'a> {
                 self.cnt.restarts += 1;
                 Res { ups: smallvec![(anc_len, shift, 1.0)], words: (req as usize - node_len) as f64, ..Default::default() }
             }
+            Class::Cut => Res { resid: 1.0, ..Default::default() },
             Class::More { .. } => {
                 let plen = p.len();
                 let mut r = self.explore_more(p, path, cls, vdepth);
@@ -1123,6 +1145,9 @@ impl<'a> Explorer<'a> {
     /// cheap signature of child word `w` of node `p`: the outcome of one execution on continuation seed 1
     #[inline]
     fn cheap(&mut self, p: &mut Vec<u64>, w: u64) -> u64 {
+        if self.hard_stop {
+            return 0;
+        }
         p.push(w);
         let e = self.exec(p, 1, false);
         let pr = Self::probe_of(&e, p.len());
